@@ -279,22 +279,32 @@ func computeFacts(c config) facts {
 	certain := func(i, j int) bool {
 		return f.uid[i][j] || (f.samePtr[i][j] && f.forcedWS[i][j] >= opt.PreferPointerAbove)
 	}
-	rUsed := make([]int, f.nR)
+	// Certain matches tie only within their kind: the unique-identifier stage runs (and is finished) before
+	// the pointer stage, so an individual with one partner by identifier and another by pointer is decided
+	// - the identifier wins - and the result must still equal the sequential one.
+	byPtr := func(i, j int) bool {
+		return !f.uid[i][j] && f.samePtr[i][j] && f.forcedWS[i][j] >= opt.PreferPointerAbove
+	}
+	rUID, rPtr := make([]int, f.nR), make([]int, f.nR)
 	for i := 0; i < f.nL; i++ {
-		n := 0
+		nu, np := 0, 0
 		for j := 0; j < f.nR; j++ {
-			if certain(i, j) {
-				n++
-				rUsed[j]++
+			if f.uid[i][j] {
+				nu++
+				rUID[j]++
+			}
+			if byPtr(i, j) {
+				np++
+				rPtr[j]++
 			}
 		}
-		if n > 1 {
-			f.tieFree, f.whyNotTieFree = false, "a left individual has two certain partners"
+		if nu > 1 || (nu == 0 && np > 1) {
+			f.tieFree, f.whyNotTieFree = false, "a left individual has two certain partners of one kind"
 		}
 	}
-	for _, n := range rUsed {
-		if n > 1 {
-			f.tieFree, f.whyNotTieFree = false, "a right individual is the certain partner of two left individuals"
+	for j := range rUID {
+		if rUID[j] > 1 || (rUID[j] == 0 && rPtr[j] > 1) {
+			f.tieFree, f.whyNotTieFree = false, "a right individual is the certain partner of two left individuals (one kind)"
 		}
 	}
 	// duplicate pointers inside one list make ByPointer ambiguous
